@@ -193,7 +193,10 @@ def cff_path(cs, nregions_of):
     from fontTools.cffLib.specializer import generalizeCommands, programToCommands
 
     cs.decompile()
-    cmds = generalizeCommands(programToCommands(list(cs.program), getNumRegions=nregions_of))
+    try:
+        cmds = generalizeCommands(programToCommands(list(cs.program), getNumRegions=nregions_of))
+    except Exception as e:
+        raise OutOfDomain("charstring the specializer cannot generalise (%s)" % type(e).__name__)
     vsindex = 0
     k = None
     x = y = None
@@ -227,6 +230,29 @@ def cff_path(cs, nregions_of):
         else:
             raise OutOfDomain("charstring operator %s" % op)
     return pts, vsindex
+
+
+def drawn_path(font, g):
+    """[(kind, x, y)] of a master glyph as its charstring draws it (subroutines resolved)"""
+    from fontTools.pens.recordingPen import RecordingPen
+
+    pen = RecordingPen()
+    font.getGlyphSet()[g].draw(pen)
+    out = []
+    for op, args in pen.value:
+        if op == "moveTo":
+            out.append(("M", args[0][0], args[0][1]))
+        elif op == "lineTo":
+            out.append(("L", args[0][0], args[0][1]))
+        elif op == "curveTo":
+            if len(args) != 3:
+                raise OutOfDomain("curve with %d points" % len(args))
+            out += [("C%d" % j, a[0], a[1]) for j, a in enumerate(args)]
+        elif op in ("closePath", "endPath"):
+            continue
+        else:
+            raise OutOfDomain("pen operator %s" % op)
+    return out
 
 
 def project_cff(vf, masters, regions, names, skips):
@@ -274,16 +300,14 @@ def project_cff(vf, masters, regions, names, skips):
                 if g not in mcs.keys():
                     ms.append([])
                     continue
-                mpts, _ = cff_path(mcs[g], getattr(mcs[g], "getNumRegions", None))
+                mpts = drawn_path(m, g)
                 if not mpts and not dempty:
                     ms.append([])
                     continue
                 if [p[0] for p in mpts] != kinds:
                     ms.append([[12345678, 12345678]])  # a different path structure: shows as a point-count mismatch
                     continue
-                if any(len(xs) > 1 or len(ys) > 1 for _, xs, ys in mpts):
-                    raise OutOfDomain("variable master charstring")
-                ms.append([[sc(xs[0]), sc(ys[0])] for _, xs, ys in mpts])
+                ms.append([[sc(fr(x)), sc(fr(y))] for _, x, y in mpts])
             ends = [i - 1 for i, kd in enumerate(kinds) if kd == "M" and i > 0] + ([len(kinds) - 1] if kinds else [])
             out.append({"n": g, "den": den, "pts": [[sc(xs[0]), sc(ys[0])] for _, xs, ys in pts] + [[0, 0]] * 4, "ends": ends,
                         "cmp": len(pts), "tv": tvs, "m": ms})
